@@ -276,7 +276,17 @@ func opsCase(t *testing.T, r *vh.Run, ck string, et int32, i int) {
 	etp := g.encTicketPart(now, et)
 	etp.CName = cname
 	etp.CRealm = realm
-	tc, err := kcrypto.EncryptConf(et, skey, 2, etp.DER(), conf(kcrypto.ConfLen(et)))
+	// every other case: ticket flags longer than 32 bits (flagbits_test.go)
+	lg := &gen{rnd: g.rnd}
+	if i%2 == 1 {
+		lg.long = randLongFlags(g)
+	}
+	etpDER := lg.lf(etp.DER())
+	if lg.bad != "" {
+		r.Inconclusive(ck + ": " + lg.bad)
+		return
+	}
+	tc, err := kcrypto.EncryptConf(et, skey, 2, etpDER, conf(kcrypto.ConfLen(et)))
 	if err != nil {
 		r.Inconclusive(ck + ": reference encryption: " + err.Error())
 		return
@@ -307,17 +317,27 @@ func opsCase(t *testing.T, r *vh.Run, ck string, et int32, i int) {
 			r.Inconclusive(fmt.Sprintf("%s: gokrb5 cannot decrypt the reference-minted ticket: %v", ck, derr))
 			return
 		}
-		if d := valueDiff(gEncTicketPart(etp), tk.DecryptedEncPart); d != "" {
-			r.Violation("C13|EncTicketPart|ref-decoded-fields|"+d, "EncTicketPart decoded by Ticket.DecryptEncPart differs from the reference model at "+d, map[string]any{"case": ck, "etype": et, "enc_ticket_part_hex": hexCut(etp.DER())})
+		wantPart := gEncTicketPart(etp)
+		wantPart.Flags = lg.lfv(wantPart.Flags)
+		if d := valueDiff(wantPart, tk.DecryptedEncPart); d != "" {
+			r.Violation("C13|EncTicketPart|ref-decoded-fields|"+d, "EncTicketPart decoded by Ticket.DecryptEncPart differs from the reference model at "+d, map[string]any{"case": ck, "etype": et, "enc_ticket_part_hex": hexCut(etpDER), "flags_bit_length": wantPart.Flags.BitLength})
 		} else {
 			r.Inc("op_enc_ticket_part_fields_equal")
+			if lg.long != nil {
+				r.Inc("op_enc_ticket_part_long_flags_fields_equal")
+			}
 		}
-		c.after("Ticket", "decrypt", "op_ticket_decrypt_checked", tb, m1, e1, etp.Key.Value, map[string]any{"service_key_hex": fmt.Sprintf("%x", skey), "session_key_hex": fmt.Sprintf("%x", etp.Key.Value), "enc_ticket_part_hex": hexCut(etp.DER())})
+		c.after("Ticket", "decrypt", "op_ticket_decrypt_checked", tb, m1, e1, etp.Key.Value, map[string]any{"service_key_hex": fmt.Sprintf("%x", skey), "session_key_hex": fmt.Sprintf("%x", etp.Key.Value), "enc_ticket_part_hex": hexCut(etpDER)})
 	}()
 
 	// ---- Ticket built by gokrb5 (NewTicket): EncTicketPart conformance, then DecryptEncPart
 	func() {
 		fl := gFlags(g.flags())
+		ng := &gen{rnd: g.rnd}
+		if i%2 == 0 {
+			ng.long = randLongFlags(g)
+		}
+		fl = ng.lfv(fl)
 		var st, rt time.Time
 		if g.opt() {
 			st = now.Add(-time.Minute)
@@ -366,12 +386,26 @@ func opsCase(t *testing.T, r *vh.Run, ck string, et int32, i int) {
 		if !rt.IsZero() {
 			want.RenewTill = &rt
 		}
-		if !bytes.Equal(want.DER(), pe.DER()) {
-			dd := derDiff(pe.DER(), want.DER())
-			r.Violation("C13|EncTicketPart|encoded-fields|"+dd, "EncTicketPart made by NewTicket decodes to other field values than passed in; first difference at "+dd, map[string]any{"case": ck, "etype": et, "plaintext_hex": hexCut(pt), "expected_hex": hexCut(want.DER())})
+		// the reference model keeps 32 flag bits: with longer flags the element itself is compared with the spliced reference encoding
+		wantDER, gotDER := ng.lf(want.DER()), pe.DER()
+		if ng.long != nil {
+			if n, _, perr := der.Parse(pt); perr == nil {
+				gotDER = n.Raw
+			}
+		}
+		if ng.bad != "" {
+			r.Inconclusive(ck + ": " + ng.bad)
+			return
+		}
+		if !bytes.Equal(wantDER, gotDER) {
+			dd := derDiff(gotDER, wantDER)
+			r.Violation("C13|EncTicketPart|encoded-fields|"+dd, "EncTicketPart made by NewTicket decodes to other field values than passed in; first difference at "+dd, map[string]any{"case": ck, "etype": et, "plaintext_hex": hexCut(pt), "expected_hex": hexCut(wantDER), "flags_bit_length": fl.BitLength})
 			return
 		}
 		r.Inc("op_newticket_ref_decoded")
+		if ng.long != nil {
+			r.Inc("op_newticket_long_flags_ref_decoded")
+		}
 		if p, _, _ := vh.Guard(func() {
 			derr = tk.DecryptEncPart(kt, nil)
 			m1, e1 = tk.Marshal()
@@ -382,53 +416,8 @@ func opsCase(t *testing.T, r *vh.Run, ck string, et int32, i int) {
 		c.after("Ticket", "decrypt", "op_newticket_decrypt_checked", m0, m1, e1, sk.KeyValue, map[string]any{"built_by": "messages.NewTicket"})
 	}()
 
-	// ---- AP-REQ: reference-minted, Verify under a virtual clock
-	func() {
-		etp2 := g.encTicketPart(now, et)
-		etp2.CName, etp2.CRealm = cname, realm
-		etp2.CAddr = nil
-		au := g.authenticator()
-		au = normAuth(au)
-		au.CName, au.CRealm, au.CTime, au.Cusec = cname, realm, now, g.rnd.Intn(1000000)
-		mint := accept.Mint{ServiceKey: kmsg.Key{Type: et, Value: skey}, Kvno: kvp, Realm: realm, SName: sname, TktVno: 5, Tkt: etp2, Auth: au, Options: g.flags(), Pvno: 5, MsgType: 14, Conf: conf}
-		rb, err := mint.Build()
-		if err != nil {
-			r.Inconclusive(ck + ": reference mint: " + err.Error())
-			return
-		}
-		var a messages.APReq
-		var m0, m1 []byte
-		var uerr, e0, e1, verr error
-		var ok, pnc bool
-		var pv, pw string
-		pcommon.AtVirtual(t, now.Sub(pcommon.Epoch), func() {
-			pnc, pv, pw = vh.Guard(func() {
-				uerr = a.Unmarshal(append([]byte{}, rb...))
-				if uerr != nil {
-					return
-				}
-				m0, e0 = a.Marshal()
-				ok, verr = a.Verify(kt, 5*time.Minute, types.HostAddress{}, nil)
-				m1, e1 = a.Marshal()
-			})
-		})
-		if pnc {
-			r.Violation("C13|panic|APReq|verify|"+vh.PanicClass(pv), "APReq Unmarshal/Verify/Marshal panicked: "+pv, map[string]any{"case": ck, "where": pw})
-			return
-		}
-		if uerr != nil || e0 != nil || !bytes.Equal(m0, rb) {
-			r.Inc("op_apreq_precondition_failed")
-			return
-		}
-		if !ok || verr != nil {
-			r.Inconclusive(fmt.Sprintf("%s: APReq.Verify does not accept the reference-minted request: %v", ck, verr))
-			return
-		}
-		if d := valueDiff(gAuth(au), a.Authenticator); d != "" {
-			r.Violation("C13|Authenticator|ref-decoded-fields|"+d, "Authenticator decoded by APReq.Verify differs from the reference model at "+d, map[string]any{"case": ck, "etype": et})
-		}
-		c.after("APReq", "verify", "op_apreq_verify_checked", rb, m1, e1, etp2.Key.Value, map[string]any{"service_key_hex": fmt.Sprintf("%x", skey), "session_key_hex": fmt.Sprintf("%x", etp2.Key.Value), "virtual_now": now.Format(time.RFC3339)})
-	}()
+	// ---- AP-REQ: reference-minted, then used in each of the ways a service uses a received request (uses_test.go)
+	apreqUses(t, c, g, now, realm, sname, cname, skey, kvno, kvp, conf)
 
 	// ---- AS-REP: DecryptEncPart with a keytab, then Verify
 	func() {
@@ -493,7 +482,8 @@ func opsCase(t *testing.T, r *vh.Run, ck string, et int32, i int) {
 	// ---- TGS-REP: DecryptEncPart with the session key
 	func() {
 		ep := normEncKDCRepPart(g.encKDCRepPart())
-		ep.AppTag = 26
+		ep.AppTag, ep.AuthTime, ep.SRealm = 26, now, realm
+		ep.CAddr = nil
 		sess := pcommon.RefKey(g.rnd, et)
 		ec, err := kcrypto.EncryptConf(et, sess, 8, ep.DER(), conf(kcrypto.ConfLen(et)))
 		if err != nil {
@@ -528,6 +518,30 @@ func opsCase(t *testing.T, r *vh.Run, ck string, et int32, i int) {
 			r.Violation("C13|EncKDCRepPart|ref-decoded-fields|"+d, "EncTGSRepPart decoded by TGSRep.DecryptEncPart differs from the reference model at "+d, map[string]any{"case": ck, "etype": et, "hex": hexCut(ep.DER())})
 		}
 		c.after("TGSRep", "decrypt", "op_tgsrep_decrypt_checked", rb, m1, e1, ep.Key.Value, nil)
+
+		// then TGSRep.Verify against a request (matching in every other case); its outcome is not this property's subject
+		cfg := config.New()
+		cfg.LibDefaults.Clockskew = 5 * time.Minute
+		req := messages.TGSReq{KDCReqFields: messages.KDCReqFields{PVNO: 5, MsgType: 12, ReqBody: messages.KDCReqBody{KDCOptions: types.NewKrbFlags(), CName: gPN(cname), Realm: realm, SName: gPN(sname), Till: now.Add(time.Hour), Nonce: int(ep.Nonce), EType: []int32{et}}}}
+		if i%2 == 1 {
+			req.ReqBody.CName = gPN(sname)
+		}
+		var m2 []byte
+		var e2, verr error
+		var ok, pnc bool
+		var pv, pw string
+		pcommon.AtVirtual(t, now.Sub(pcommon.Epoch), func() {
+			pnc, pv, pw = vh.Guard(func() {
+				ok, verr = a.Verify(cfg, req)
+				m2, e2 = a.Marshal()
+			})
+		})
+		if pnc {
+			r.Violation("C13|panic|TGSRep|verify|"+vh.PanicClass(pv), "TGSRep Verify/Marshal panicked: "+pv, map[string]any{"case": ck, "where": pw})
+			return
+		}
+		r.Inc(fmt.Sprintf("observe_op_tgsrep_verify_succeeded=%v", ok && verr == nil))
+		c.after("TGSRep", "verify", "op_tgsrep_verify_checked", rb, m2, e2, ep.Key.Value, map[string]any{"verify_ok": ok, "verify_err": fmt.Sprint(verr)})
 	}()
 
 	// ---- KRB-PRIV: DecryptEncPart; and EncryptEncPart -> reference decoder
